@@ -87,7 +87,7 @@ def contracts():
                 assert(reqwest::pem_certs(file).to_set().contains(reqwest::pem_certs(file)[0]));
                 lemma_roots_step(cb0.roots@, client_builder.roots@, f0, crate::rootfs::file_content(root_certs@[i]@));
             }"""),
-          ("before_stmt", "Ok(client_builder.build", 1, "proof { assert(root_certs@.take(root_certs@.len() as int) =~= root_certs@); }")],
+          ("before_tail", None, 1, "proof { assert(root_certs@.take(root_certs@.len() as int) =~= root_certs@); }")],
         rewrites=[("T-PARSE", r"(?P<e>\"[^\"]*\"|\w+)\.parse\(\)", r"crate::reqwest::header::parse_header_value(&\g<e>)", None)])
     c["get"] = FnSpec(ret="r", ghost=True, sig="    requires" + NET_PRE + "    ensures" + NET_POST + """
         final(w).net.posts == old(w).net.posts,
